@@ -34,7 +34,7 @@ QUICK = [
     ("tick1-pend-2keys", 1, 2, 1, 2, 1, BOTH, '{"ss", "mm"}', '{"tt"}'),
     ("tick1-3entries-mixed", 1, 3, 0, 2, 1, BOTH, '{"ss", "mm", "sm", "ms"}', '{"tt"}'),
     ("tick2", 2, 1, 0, 2, 2, BOTH, '{"ss", "mm"}', '{"tt", "ts", "ss"}'),
-    ("tick2-dups", 2, 2, 0, 1, 2, BOTH, '{"ss", "mm"}', '{"ss"}'),
+    ("tick2-dups", 2, 2, 0, 1, 2, BOTH, '{"ss"}', '{"ss"}'),
     ("tick3", 3, 1, 0, 1, 2, BOTH, '{"ss", "mm"}', '{"st", "ss"}'),
 ]
 THOROUGH = [
